@@ -50,7 +50,7 @@ class Job:
     """One proof job = one harness file discharged against the extraction of one unit in one configuration."""
     def __init__(s, id, props, unit, harness, roots=None, stubs=None, entry='harness', cfgs=(BASE,), thorough_cfgs=None,
                  dfcc=None, unwind=None, flags=(), timeout=600, mem_gb=12, tier='quick', defines=(), floor=1,
-                 under_contract=(), trusted=(), bounded=None, replay=None, objbits=None, solver=None, variants=None, cut=(), unwindset=None):
+                 under_contract=(), trusted=(), bounded=None, replay=None, objbits=None, solver=None, variants=None, cut=(), unwindset=None, unwindset_raw=None):
         s.id = id; s.props = list(props); s.unit = unit; s.harness = harness
         s.roots = collections.OrderedDict(roots or {}); s.stubs = collections.OrderedDict(stubs or {})
         s.entry = entry; s.cfgs = list(cfgs); s.thorough_cfgs = list(thorough_cfgs) if thorough_cfgs else None
@@ -60,6 +60,7 @@ class Job:
         s.under_contract = list(under_contract)   # human-readable names of the real functions whose contract this job discharges
         s.trusted = list(trusted); s.bounded = bounded; s.replay = replay; s.objbits = objbits; s.solver = solver
         s.unwindset = dict(unwindset or {})   # {ALIAS: bound}: tighter bound for every loop of that extracted function
+        s.unwindset_raw = dict(unwindset_raw or {})   # {'c_function.loopnumber': bound} for harness/spec loops
         s.cut = list(cut)        # loops closed by an invariant at the natural-loop head: 'ALIAS/label'
         s.variants = variants    # optional list of (suffix, extra_defines): the same harness discharged once per case split
 
@@ -194,6 +195,7 @@ def run_job(job, cfg, scratch, keep=False, variant=None):
             m_ = re.search(r'^#define %s (\w+)$' % re.escape(a_), tr['types'], flags=re.M)
             if not m_: raise Undecided('unwindset: alias %s not extracted' % a_)
             cb += ['--unwindset', ','.join('%s.%d:%d' % (m_.group(1), k_, n_) for k_ in range(6))]
+        if job.unwindset_raw: cb += ['--unwindset', ','.join('%s:%d' % kv for kv in job.unwindset_raw.items())]
         cb += ['--object-bits', str(job.objbits or 12)]
         if job.solver != 'minisat': cb += ['--sat-solver', job.solver or 'cadical']
         cb += job.flags
